@@ -167,9 +167,8 @@ def step (s : St) (op impl : String) : St × StepOut :=
         let ctFails : List Fail := match s.gk.find? (fun k => k.ep == ep && k.gen == implGen.toNat) with
           | some k =>
             let rc := sealWith k.rfcRK k.rfcIV implBit
-            let cc := sealWith k.codeRK k.codeIV implBit
             if implCt ≠ rc then
-              [("aead_matches_rfc", if s.ver == 2 && implGen ≥ 1 && implCt == cc then "v2_ku_label" else "-",
+              [("aead_matches_rfc", "-",
                 s!"version {s.ver} generation {implGen} pn={pn}: sealed {implCt}, RFC 9001 §6.1 / RFC 9369 §3.3.2 key chain gives {rc}")] else []
           | none => []
         (mc, ctFails)
@@ -279,7 +278,7 @@ def step (s : St) (op impl : String) : St × StepOut :=
     -- judged at the generation the implementation reports
     let rfc := fmt ig false
     let fails : List Fail := if impl ≠ rfc then
-      [("key_update_secret_rfc", if s.ver == 2 && impl == fmt ig true then "v2_ku_label" else "-",
+      [("key_update_secret_rfc", "-",
         s!"version {s.ver}: next-generation secrets {impl}; RFC 9001 §6.1 / RFC 9369 §3.3.2 give {rfc}")] else []
     (s, mk model ["secrets", s!"secrets:v{s.ver}"] fails)
   | "setic" =>
